@@ -120,13 +120,20 @@ def make(interp):
         if isinstance(a, tuple) and isinstance(b, tuple) and len(a) == len(b): return all(same_value(x, y) for x, y in zip(a, b))
         if is_z3(a) and is_z3(b): return z3.eq(a, b)
         return False
+    def _concatenate(parts, axis=0):
+        """the axis is normalised by the rank of the parts: -1 is the LAST axis (the old model sent -1 to axis 0 whatever the rank; conformance check)"""
+        ps = [A.from_value(p) for p in parts]; nd = max([p.ndim for p in ps if isinstance(p, SArr)] + [1])
+        ax = axis + nd if axis < 0 else axis
+        if ax == 0: return A.concat(parts, 0)
+        if ax == 1 and nd == 2: return A.concat_axis1(parts)
+        raise Unsupported("concatenate along this axis")
     jnp = {
         "array": B(lambda x, dtype=None: A.astype(A.from_value(x), dtype) if dtype is not None else A.from_value(x)),
         "asarray": B(lambda x, dtype=None: A.astype(A.from_value(x), dtype) if dtype is not None else A.from_value(x)),
         "zeros": B(lambda shape, dtype=None: A.zeros(shape, dtype=dtype)), "ones": B(lambda shape, dtype=None: A.zeros(shape, dtype=dtype, fill=1)),
         "zeros_like": B(lambda a, dtype=None: A.zeros(a.shape) if isinstance(a, SArr) else 0),
         "full": B(lambda shape, v, dtype=None: A.zeros(shape, fill=v)),
-        "arange": B(A.arange), "hstack": B(A.hstack), "vstack": B(A.vstack), "concatenate": B(lambda parts, axis=0: A.concat(parts, 0 if axis in (0, -1) else axis)),
+        "arange": B(A.arange), "hstack": B(A.hstack), "vstack": B(A.vstack), "concatenate": B(lambda parts, axis=0: _concatenate(parts, axis)),
         "reshape": B(lambda a, sh: A.reshape(a, (sh,) if not isinstance(sh, (tuple, list)) else tuple(sh))),
         "max": B(A.amax), "min": B(A.amin), "sum": B(A.asum), "any": B(A.aany), "all": B(A.aall), "argmax": B(A.argmax),
         "abs": B(A.elementwise(A.aabs)), "maximum": B(lambda a, b: A.Max(a, b)), "minimum": B(lambda a, b: A.Min(a, b)),
@@ -223,6 +230,7 @@ def make(interp):
     def stack(parts, axis=0):
         parts = [A.from_value(x) if not isinstance(x, SArr) else x for x in parts]
         if axis != 0: raise Unsupported("stack with axis != 0")
+        if all(not isinstance(q, SArr) or q.ndim == 0 for q in parts): return arr_from_list([q.get(()) if isinstance(q, SArr) else q for q in parts])     # scalars -> a vector
         sh = parts[0].shape
         return SArr((len(parts),) + tuple(sh), lambda idx: select_list([q.get(tuple(idx[1:])) for q in parts], idx[0]) if concrete_int(idx[0]) is None else parts[concrete_int(idx[0])].get(tuple(idx[1:])))
     def ravel_(a): return A.reshape(A.from_value(a), (-1,))
